@@ -23,7 +23,7 @@ class Builder:
                  mkparam=None, allow_dangling=True, allow_cpa=True, hostile_names=True, allow_blocks=True,
                  mkdoc=None, compound_generic=True, max_items=8, name_forms=False, trigger=":keyword",
                  p_trigger=0.0, p_between=0.12, p_reuse_params=0.12, p_clone=0.0, clone_toggle_doc=False,
-                 class_arg_variants=False, virtual_members=False, p_doc_impl=0.0):
+                 class_arg_variants=False, virtual_members=False, p_doc_impl=0.0, helpers_in_tests=0.0):
         self.rng = rng
         self.uid = 0
         self.p_doc = p_doc
@@ -35,6 +35,7 @@ class Builder:
         self.mkparam = mkparam
         self.mkdoc = mkdoc
         self.allow_dangling = allow_dangling
+        self.helpers_in_tests = helpers_in_tests
         self.allow_cpa = allow_cpa
         self.hostile_names = hostile_names
         self.allow_blocks = allow_blocks
@@ -253,6 +254,11 @@ class Builder:
                     body.append(self.plain())
         if r.random() < 0.2 and self.allow_cpa:
             body.append(self.cpa())
+        if self.helpers_in_tests and r.random() < self.helpers_in_tests and depth < self.max_depth:
+            # an ordinary helper definition inside the test body, before, between or after its sections
+            h = self.definition(depth + 1)
+            h.body = [self.plain()] if r.random() < 0.4 else []
+            body.insert(r.randint(0, len(body)), h)
         im = Item(kind, kind, ["${" + nm + "}"], uid, body=body, endcmd="end" + kind, is_impl=True,
                   name="${" + nm + "}", params=[])
         if self.p_doc_impl and r.random() < self.p_doc_impl:
